@@ -5050,6 +5050,34 @@ def split_tuple_assigns(fn):
                         i -= 1
                         st = blk[i]
                         done = True
+                # `x[i], y.a = (n0, n1)` with plain names on the right (all
+                # values exist already; the stores happen left to right)
+                if isinstance(st, ast.Assign) and len(st.targets) == 1 and \
+                        isinstance(st.targets[0], ast.Tuple) and isinstance(
+                        st.value, ast.Tuple) and len(st.targets[0].elts) == \
+                        len(st.value.elts) and all(isinstance(
+                            v, (ast.Name, ast.Constant))
+                            for v in st.value.elts) and not all(isinstance(
+                                t, ast.Name) for t in st.targets[0].elts) \
+                        and all(isinstance(t, (ast.Name, ast.Subscript,
+                                               ast.Attribute))
+                                for t in st.targets[0].elts):
+                    tnames = {t.id for t in st.targets[0].elts
+                              if isinstance(t, ast.Name)}
+                    vnames = {v.id for v in st.value.elts
+                              if isinstance(v, ast.Name)}
+                    tread = {n.id for t in st.targets[0].elts
+                             if not isinstance(t, ast.Name)
+                             for n in ast.walk(t) if isinstance(n, ast.Name)}
+                    if not (tnames & vnames) and not (tnames & tread):
+                        out = [ast.copy_location(ast.Assign(
+                            targets=[t], value=v), st)
+                            for t, v in zip(st.targets[0].elts,
+                                            st.value.elts)]
+                        blk[i:i + 1] = out
+                        i += len(out)
+                        done = True
+                        continue
                 if isinstance(st, ast.Assign) and len(st.targets) == 1 and \
                         isinstance(st.targets[0], ast.Tuple) and isinstance(
                         st.value, ast.Tuple) and len(st.targets[0].elts) == \
@@ -5668,7 +5696,7 @@ def scalarise_local_tuples(fn):
             for st in list(blk):
                 if not (isinstance(st, ast.Assign) and len(st.targets) == 1
                         and isinstance(st.targets[0], ast.Name)
-                        and isinstance(st.value, ast.Tuple)
+                        and isinstance(st.value, (ast.Tuple, ast.List))
                         and len(st.value.elts) >= 2 and not any(
                             isinstance(e, ast.Starred)
                             for e in st.value.elts)):
@@ -5676,10 +5704,19 @@ def scalarise_local_tuples(fn):
                 k = st.targets[0].id
                 if stores.get(k) != 1:
                     continue
-                if any(isinstance(lp, (ast.For, ast.While, ast.AsyncFor))
-                       and any(x is st for x in ast.walk(lp))
-                       for lp in ast.walk(fn) if lp is not fn):
-                    continue
+                in_loop_ = [lp for lp in ast.walk(fn) if lp is not fn
+                            and isinstance(lp, (ast.For, ast.While,
+                                                ast.AsyncFor))
+                            and any(x is st for x in ast.walk(lp))]
+                if in_loop_:
+                    # inside a loop: only when every use follows in the
+                    # same block (bound afresh in each pass)
+                    after_ = {id(n) for s_ in blk[blk.index(st) + 1:]
+                              for n in ast.walk(s_)}
+                    if not all(id(n) in after_ for n in ast.walk(fn)
+                               if isinstance(n, ast.Name) and n.id == k
+                               and isinstance(n.ctx, ast.Load)):
+                        continue
                 n_ = len(st.value.elts)
                 refs = [n for n in ast.walk(fn) if isinstance(n, ast.Name)
                         and n.id == k and isinstance(n.ctx, ast.Load)]
@@ -5692,7 +5729,7 @@ def scalarise_local_tuples(fn):
                     and -n_ <= n.slice.value < n_]
                 unp = [u for u in ast.walk(fn) if isinstance(u, ast.Assign)
                        and len(u.targets) == 1 and isinstance(
-                           u.targets[0], ast.Tuple) and isinstance(
+                           u.targets[0], (ast.Tuple, ast.List)) and isinstance(
                            u.value, ast.Name) and u.value.id == k
                        and len(u.targets[0].elts) == n_ and not any(
                            isinstance(e, ast.Starred)
@@ -5757,6 +5794,12 @@ def inline_single_use_generators(fn):
                     if isinstance(nx, (ast.For, ast.With, ast.Try,
                                        ast.FunctionDef, ast.ClassDef)):
                         heads = []
+                    if isinstance(nx, ast.For) and isinstance(
+                            nx.iter, ast.Name) and nx.iter.id == g:
+                        nx.iter = st.value
+                        del blk[i]
+                        done = True
+                        continue
                     hit = None
                     for h in heads:
                         for c in ast.walk(h):
